@@ -3,6 +3,12 @@
 (* harness/drv/drv_chunking.cpp.  "scs" records carry the arguments and the result  *)
 (* of one call of the compiled function; "big" records carry a call with items up   *)
 (* to 2^62 in quotient / remainder form (theorem QuotRemForm of Chunking_proofs).   *)
+(* "wide" records are calls next to a width boundary 2^K (K up to 63) where also     *)
+(* the chunk count / granularity may exceed 31 bits: 63-bit quantities come as      *)
+(* three 21-bit limbs <<hi, mid, lo>> (TLC integers are 32-bit), compared limb-wise. *)
+(* "pfw" records are real static parallel_for calls over ranges whose size is next   *)
+(* to such a boundary: the chunk boundaries relative to the quotient (see the        *)
+(* driver), judged by QuotRemForm + MapperContiguous and by the C17 predicates.      *)
 EXTENDS Chunking, Json, IOUtils
 
 TraceLog == ndJsonDeserialize(IOEnv.TRACE)
@@ -13,8 +19,68 @@ tvars == <<l, v>>
 SpecOf(r) == IF r.api = "granular" THEN StaticChunkSizeGranular(r.items, r.chunks, r.g)
              ELSE StaticChunkSize(r.items, r.chunks)
 
+\* ---- 63-bit quantities as limbs <<hi, mid, lo>>, 0 <= limb < 2^21
+Limb == 2 ^ 21
+IsWide(a) == Len(a) = 3 /\ \A i \in 1 .. 3 : 0 <= a[i] /\ a[i] < Limb
+WideZero == <<0, 0, 0>>
+WideLe(a, b) == \/ a[1] < b[1]
+                \/ a[1] = b[1] /\ a[2] < b[2]
+                \/ a[1] = b[1] /\ a[2] = b[2] /\ a[3] <= b[3]
+WideLt(a, b) == WideLe(a, b) /\ a # b
+\* a + b (the top limb of the sum may exceed 2^21: then it equals no limb value)
+WideAdd(a, b) == LET lo == a[3] + b[3]
+                     mi == a[2] + b[2] + (lo \div Limb)
+                 IN  <<a[1] + b[1] + (mi \div Limb), mi % Limb, lo % Limb>>
+
+\* items = (q*chunks + m)*g, 0 <= m < chunks: QuotRemForm gives ceil = (q + [m > 0])*g and
+\* trans = IF m = 0 THEN chunks ELSE m, hence 1 <= trans <= chunks; SumExact / CeilFacts (same module
+\* of proofs) make these values the ones with exact sum and sizes one unit apart.
+WideVerdicts(r) ==
+  LET ok == IsWide(r.trans) IN
+  [line |-> l,
+   conforms |-> /\ r.dq = (IF r.m # WideZero THEN 1 ELSE 0) /\ r.cr = 0
+                /\ r.trans = (IF r.m = WideZero THEN r.chunks ELSE r.m),
+   \* trans*ceil + (chunks - trans)*(ceil - g) = items  <=>  chunks*(dq*g + cr) + trans*g = (chunks + m)*g:
+   \* decided here for results whose ceil is within one unit of q*g (anything else violates `unit`)
+   sum   |-> (r.cr = 0 /\ r.dq \in {0, 1}) =>
+             r.trans = (IF r.dq = 1 THEN r.m ELSE WideAdd(r.m, r.chunks)),
+   trans |-> ok /\ WideLe(<<0, 0, 1>>, r.trans) /\ WideLe(r.trans, r.chunks),
+   unit  |-> r.cr = 0 /\ r.dq \in {0, 1}]
+
+\* the real static parallel_for: size = (q*nt + m)*g, nt = min(N + 1, maxThreads) chunks (the range has
+\* at least 4*nt units), chunk i (0-based, sorted by begin) starts at unit i*q + min(i, m) and has
+\* q + [i < m] units.  b[i] = <<do, orem, ds, lrem, gap>>, see the driver.
+PfwVerdicts(r) ==
+  LET nt == Min(r.N + 1, r.mt)
+      n  == Len(r.b)
+  IN
+  [line |-> l,
+   conforms |-> /\ r.nb = nt /\ n = nt
+                /\ \A i \in 1 .. n : r.b[i] = <<Min(i - 1, r.m), 0, IF i - 1 < r.m THEN 1 ELSE 0, 0, 0>>
+                /\ r.tail = 0,
+   \* C17 on the observed boundaries: the chunks are a contiguous chain from the start of the range to
+   \* its end (b[i][5] = begin of chunk i - end of chunk i-1 resp. - start; tail = end of range - end of
+   \* the last chunk) ...
+   sum   |-> /\ r.nb = n /\ n >= 1 /\ r.tail = 0
+             /\ \A i \in 1 .. n : r.b[i][5] = 0,
+   trans |-> TRUE,
+   \* ... of non-empty sizes that are multiples of g, at most one unit apart, larger first
+   unit  |-> /\ \A i \in 1 .. n : r.b[i][3] \in {0, 1} /\ r.b[i][4] = 0
+             /\ \A i \in 1 .. (n - 1) : r.b[i][3] >= r.b[i + 1][3]]
+
+\* well-formed input part of a record (the driver's side of the contract)
+WellFormed(r) ==
+  CASE r.e = "wide" -> /\ IsWide(r.q) /\ IsWide(r.m) /\ IsWide(r.chunks) /\ IsWide(r.g) /\ IsWide(r.items)
+                       /\ WideLt(r.m, r.chunks) /\ r.g # WideZero
+    [] r.e = "pfw"  -> /\ IsWide(r.q) /\ IsWide(r.size) /\ r.g >= 1 /\ r.N >= 1 /\ r.mt >= 2
+                       /\ 0 <= r.m /\ r.m < Min(r.N + 1, r.mt)
+                       /\ WideLe(<<0, 0, 4>>, r.q)
+    [] OTHER        -> TRUE
+
 Verdicts(r) ==
-  IF r.e = "scs"
+  IF r.e = "wide" THEN WideVerdicts(r)
+  ELSE IF r.e = "pfw" THEN PfwVerdicts(r)
+  ELSE IF r.e = "scs"
   THEN LET s == SpecOf(r) IN
        [line |-> l,
         conforms |-> r.ceil = s.ceil /\ r.trans = s.trans,
@@ -32,7 +98,7 @@ Verdicts(r) ==
 TraceInit == l = 2 /\ v = <<>> /\ TraceLog[1].e = "hdr"
 TraceStep ==
   /\ l <= Len(TraceLog)
-  /\ \E r \in {TraceLog[l]} : v' = Verdicts(r)
+  /\ \E r \in {TraceLog[l]} : WellFormed(r) /\ v' = Verdicts(r)
   /\ l' = l + 1
 TraceSpec == TraceInit /\ [][TraceStep]_tvars
 
